@@ -153,6 +153,7 @@ def run_probe(eng, op, tv):
         elif g in ("row_get_cell", "row_traverse", "row_cells", "row_get_cells"):
             y = op["y"]
             row = t.get_row(neg_y if op.get("neg") else y)
+            row_before = row.serialize()  # (the row is itself a copy: what its getters hand out must be copies of ITS cells)
             rw = len(tv.rows[y]) if y < H else 0
             if y >= H:
                 feats.append("outside")
@@ -358,6 +359,8 @@ def run_probe(eng, op, tv):
     eng.stats.probe("probe_mutated:" + type(target).__name__)
     if g in DOCUMENTED_COPY:
         after = t.serialize()
+        if g in ("row_traverse", "row_get_cell") and row.serialize() != row_before:
+            return vs + [Violation("C08", "aliased", name, feats + ["row_level"], None, f"mutating ({mut}) the cell returned for {exp[i]} changed the row it was read from")]
         if after != before_xml:
             f2 = list(feats)
             kind, x, y = exp[i]
